@@ -119,6 +119,8 @@ class SlotResolver:
             d = self.fm.decls.get(did)
             if d is None:
                 return {"kind": "expr", "origin": self.fm.origin(n), "node": n}
+            if did in self.fm.loop_vars:
+                return {"kind": "level" if self.fm.is_level_loop(self.fm.loop_vars[did]) else "loopvar", "origin": self.fm.origin(n), "node": n}
             t = d.get("t", "")
             if "vector<" in t and "reference_wrapper" in t:
                 elems = []
@@ -143,7 +145,7 @@ class SlotResolver:
                             fills.append({"index": kids(lhs)[1], "value": kids(x)[1], "node": x})
                 return {"kind": "arr", "var": did, "name": d["name"], "fills": fills, "node": n, "decl": d}
             init = kids(d)
-            if self.fm.assigned.get(did) or not init:
+            if self.fm.assigned.get(did) or not init or t.replace("const ", "") in ("long", "int", "unsigned long", "size_t"):
                 return {"kind": "count", "var": did, "name": d["name"], "node": n, "decl": d}
             return self.resolve(init[0], depth + 1, const_seen)
         if k == "ArraySubscriptExpr":
